@@ -312,13 +312,22 @@ func cmdCheck(args []string) int {
 				"detail": v.Detail, "vector": v.Vector, "bounds": bounds, "stack": v.Stack, "known": v.Known,
 			}, "", " ")
 			os.WriteFile(file, data, 0o644)
-			rec, out, err := native.Replay(o.Pkg, pkgName, harnesses, o.Harness, file)
-			if err != nil {
-				return file, false, fmt.Sprintf("native replay failed to run: %v\n%s", err, tail(out, 30))
+			tries := 1
+			if o.Sched {
+				tries = 8 // goroutine schedules are not under the replay's control
 			}
-			for _, f := range rec.Failed {
-				if f == v.Label {
-					return file, true, ""
+			var rec *NativeRec
+			for t := 0; t < tries; t++ {
+				var out string
+				var err error
+				rec, out, err = native.Replay(o.Pkg, pkgName, harnesses, o.Harness, file)
+				if err != nil {
+					return file, false, fmt.Sprintf("native replay failed to run: %v\n%s", err, tail(out, 30))
+				}
+				for _, f := range rec.Failed {
+					if f == v.Label {
+						return file, true, ""
+					}
 				}
 			}
 			return file, false, fmt.Sprintf("native run did not fail %s (failed=%v assume=%v panic=%q)", v.Label, rec.Failed, rec.Assume, rec.Panic)
